@@ -168,3 +168,22 @@ Proof.
   - vm_compute. reflexivity.
   - vm_compute. reflexivity.
 Qed.
+
+(* gain 2 followed by a cable delay of 3 (= 3 samples of the window) behind a lead-in of 6: the hypotheses of
+   sys_delay_waveform hold and the waveform is the doubled sum 3 time units earlier *)
+Example delay_system_example :
+  let sc := mkSConfig (cfg_plain true) 6 2 (Some 3) [] in
+  let ts := [4;5;6;7] in
+  wf_window ts /\ uniform ts /\ (3 <= Z.to_nat (lead_in_n sc ts))%nat /\
+  3 == nat_Q 3 * (t_second ts - t_first ts) /\
+  map Qred (s_values (snd (s_full_waveform sc (mkS (fresh [f9_s1; f9_s2]) [] [] []) ts))) = [2;4;6;6] /\
+  map Qred (map (fun t => sum_at [f9_s1; f9_s2] (t - 3) * 2) ts) = [2;4;6;6].
+Proof.
+  cbn zeta. split; [|split; [|split; [|split; [|split]]]].
+  - unfold wf_window. split; [|simpl; lia]. simpl. repeat split; reflexivity.
+  - intros j Hj. simpl in Hj. do 4 (destruct j as [|j]; [vm_compute; reflexivity|]). lia.
+  - vm_compute. lia.
+  - vm_compute. reflexivity.
+  - vm_compute. reflexivity.
+  - vm_compute. reflexivity.
+Qed.
